@@ -7,6 +7,7 @@ import (
 	"net"
 	"sort"
 	"strconv"
+	"sync"
 	"time"
 
 	"google.golang.org/grpc"
@@ -27,6 +28,10 @@ type RawNode struct {
 	conn   *grpc.ClientConn
 	cancel func()
 	mgr    *RawManager
+
+	// connMut protects conn against a close that strikes during a (re)dial.
+	connMut sync.Mutex
+	closed  bool
 
 	// the default channel
 	channel *channel
@@ -77,10 +82,19 @@ func (n *RawNode) dial() error {
 		// close the current connection before dialing again.
 		n.conn.Close()
 	}
-	var err error
 	ctx, cancel := context.WithTimeout(context.Background(), n.mgr.opts.nodeDialTimeout)
 	defer cancel()
-	n.conn, err = grpc.DialContext(ctx, n.addr, n.mgr.opts.grpcDialOpts...)
+	conn, err := grpc.DialContext(ctx, n.addr, n.mgr.opts.grpcDialOpts...)
+	n.connMut.Lock()
+	defer n.connMut.Unlock()
+	if n.closed {
+		// the node was closed while dialing; nobody else would close this connection.
+		if conn != nil {
+			conn.Close()
+		}
+		return fmt.Errorf("node closed")
+	}
+	n.conn = conn
 	return err
 }
 
@@ -105,10 +119,14 @@ func (n *RawNode) newContext() context.Context {
 func (n *RawNode) close() error {
 	// important to cancel first to stop goroutines
 	n.cancel()
-	if n.conn == nil {
+	n.connMut.Lock()
+	n.closed = true
+	conn := n.conn
+	n.connMut.Unlock()
+	if conn == nil {
 		return nil
 	}
-	if err := n.conn.Close(); err != nil {
+	if err := conn.Close(); err != nil {
 		return nodeError{nodeID: n.id, cause: err}
 	}
 	return nil
